@@ -98,7 +98,7 @@ def run(ctx):
               "than k), k in 1..d-1 and beyond, three embedding types, n_components 1..d: rows are generalised eigenvectors of "
               "the PAIRWISE-defined local scatter matrices with the leading eigenvalues, in decreasing order, scaled per "
               "embedding_type (independent O(n^2) evaluation).")
-  ctx.trusted = ["translator tools/translate_rca.py + tools/pynum.py / Base/NPNum.v (reduced branch of RCA.fit), text pins tools/translate_pins.py (Covariance / RCA / LFDA)", "Coq 8.16.1 kernel + vm_compute", "certificate checkers in Model/CaseDefs.v (exact rationals)",
+  ctx.trusted = ["translator tools/translate_rca.py + tools/pynum.py / Base/NPNum.v (reduced branch of RCA.fit; _chunk_mean_centering and the np.cov(bias=1) statement, whose idioms nn_ne_zs / nn_mask / nn_isub_rows_where / nn_mean_rows / cov 0 are compared with the code's own functions on exact rationals per run), text pins tools/translate_pins.py (Covariance / RCA / LFDA)", "Coq 8.16.1 kernel + vm_compute", "certificate checkers in Model/CaseDefs.v (exact rationals)",
                  "oracles: scipy pinvh / eigh / eigsh, numpy cov", "LFDA reference is an independent NumPy evaluation (exp), not a Coq model",
                  "completeness of the spectrum (leading eigenvectors) is certified per instance, not proved"]
   ok = ctx.build_property(gen_needed=['Src_rca'])
@@ -202,6 +202,20 @@ def run(ctx):
       continue
     terms.append("(c09_rca %s %s %d%%nat %s)" % (gmat(X, qdy), gzlist(chunks), nchunks, gmat(L, qdy)))
     recs.append(dict(kind='rca', X=X, chunks=chunks_given, L=L, dim=dim))
+    if ctx.property_ok:
+      # the translated _chunk_mean_centering + np.cov(bias=1) (gen/Src_rca.v, the definitions C09_rca_within_chunk is about),
+      # evaluated on exact rationals with the chunk ids as given, against what the code's own functions return on this input
+      try:
+        from metric_learn import rca as rca_mod
+        with warnings.catch_warnings():
+          warnings.simplefilter('ignore')
+          _, cd = rca_mod._chunk_mean_centering(X.copy(), np.asanyarray(chunks_given, dtype=int))
+          C_impl = np.atleast_2d(np.cov(cd, rowvar=0, bias=1))
+      except Exception:
+        C_impl = None
+      if C_impl is not None and np.all(np.isfinite(C_impl)):
+        terms.append("(c09_rca_src %s %s %s)" % (gmat(X, qdy), gzlist(chunks_given), gmat(C_impl, qdy)))
+        recs.append(dict(kind='rca_src', X=X, chunks=chunks_given, C=C_impl))
     ctx.seen(('rca', X.tolist(), chunks.tolist(), dim), True)
     ctx.hist('rca.n_components', dim)
     if dim is not None and dim < d:
@@ -257,13 +271,24 @@ def run(ctx):
                      + (' (a class smaller than k is present)' if small else ''), inp, observed=r)
   ctx.sample(dict(kind='covariance', X=recs[0]['X'].tolist()[:4], M=recs[0]['M'].tolist()))
   if ok:
-    res = ctx.run_cases('c09', HEADER, terms, per_file=10)
+    header = HEADER
+    if any(r['kind'] == 'rca_src' for r in recs):
+      header = HEADER + ("""
+From ML Require Import LinAlg NPNum.
+From MLgen Require Import Src_rca.
+Definition c09_rca_src (X : list (list Q)) (chunks : list Z) (C : list (list Q)) : bool :=
+  mclose (Qred (tol_1e6 * qmaxabs C)) (@rca_inner_cov QOps X chunks) C.
+""")
+    res = ctx.run_cases('c09', header, terms, per_file=10)
     for r, rec in zip(res, recs):
       ctx.count('certificate_' + rec['kind'], 1)
       if r is False:
         if rec['kind'] == 'covariance':
           ctx.fail_input('covariance', 'M is not the (pseudo-)inverse of the sample covariance' + (' (singular case)' if rec['singular'] else ''),
                          dict(X=rec['X'].tolist()), observed=rec['M'].tolist())
+        elif rec['kind'] == 'rca_src':
+          ctx.fail_input('rca_src', 'the within-chunk covariance returned by _chunk_mean_centering + np.cov is not the value of the translated source (gen/Src_rca.v) on exact rationals',
+                         dict(X=rec['X'].tolist(), chunks=rec['chunks'].tolist()), observed=rec['C'].tolist())
         else:
           ctx.fail_input('rca', 'the within-chunk covariance of the transformed data is not the identity',
                          dict(X=rec['X'].tolist(), chunks=rec['chunks'].tolist(), n_components=rec['dim']), observed=rec['L'].tolist())
